@@ -613,6 +613,44 @@ def r10h(ctx):
                            f"{cname}.{name} has no clone flag, so its contract is the callee's default (a copy is stored); it hands its own parameter `{a.id}` to "
                            f"`{call_name(call)}` without a copy: the caller's object itself is attached — if it already sits in a table lxml moves it while the position map counts a "
                            f"new item, and later edits of it reach the table")
+    # the set_/insert_/append_ shortcuts without a flag: handing the caller's objects to a primitive attach (extend_cells, extend, append, insert: lxml moves
+    # the node) is the same hand-over without a copy, whatever the parameter is annotated as (`cells: list`).  The extend_* primitives themselves and the generic
+    # Table.append are the documented low-level way to attach an object as it is.
+    for cname in ("Table", "Row"):
+        c = repo.cls(cname)
+        for name, fs in sorted(c.methods.items()):
+            f = fs[0]
+            if f.cls is not c or name == "append" or not name.startswith(("set_", "insert_", "append_")) or f.kind in ("getter", "setter", "nested"):
+                continue
+            params = {a.arg for a in f.all_params()} - {"self"}
+            if "clone" in params:
+                continue
+            def _default_for_none(a, nm):
+                return any(pol and isinstance(t, ast.Compare) and len(t.ops) == 1 and isinstance(t.ops[0], ast.Is) and isinstance(t.left, ast.Name) and t.left.id == nm
+                           and isinstance(t.comparators[0], ast.Constant) and t.comparators[0].value is None for t, pol in structural_guards(a, stop=f.node))
+
+            rebound = {t.id for a in walk_no_nested(f.node) if isinstance(a, ast.Assign) for t in a.targets if isinstance(t, ast.Name) and not _default_for_none(a, t.id)}
+            carried = {p_ for p_ in params if p_ not in rebound}
+            for lp in [x for x in walk_no_nested(f.node) if isinstance(x, ast.For) and isinstance(x.target, ast.Name)]:
+                if any(isinstance(y, ast.Name) and y.id in carried for y in ast.walk(lp.iter)):
+                    carried.add(lp.target.id)
+            for call in [x for x in walk_no_nested(f.node) if isinstance(x, ast.Call) and call_name(x) in PRIMITIVE_ATTACH and isinstance(x.func, ast.Attribute)]:
+                recv = x_recv = call.func.value
+                # the receiver is the table/row itself or a row/cell object built or read here — not a plain list
+                is_list = isinstance(recv, ast.Name) and any(isinstance(a, (ast.Assign, ast.AnnAssign)) and isinstance(getattr(a, "value", None), (ast.List, ast.ListComp, ast.Dict, ast.Set))
+                                                               and any(isinstance(t, ast.Name) and t.id == recv.id for t in (a.targets if isinstance(a, ast.Assign) else [a.target]))
+                                                               for a in walk_no_nested(f.node))
+                if is_list:
+                    continue
+                direct = [a for a in call.args if isinstance(a, ast.Name) and a.id in carried]
+                n += 1
+                ok = not direct
+                ctx.instance("R10h", f"{f.file}:{f.ident}", f"{norm(call, 50)}: " + ("attaches what the method built or copied" if ok else f"attaches the caller's `{direct[0].id}` itself"),
+                             ok=ok, nontrivial=True, line=call.lineno)
+                if not ok:
+                    ctx.report("R10h", f, call, norm(call, 60),
+                               f"{cname}.{name} has no clone flag and hands its own parameter `{direct[0].id}` to the primitive `{call_name(call)}`, which attaches the objects as they are: "
+                               f"lxml moves each node out of wherever it was (the caller's other table loses those cells), and one object given several times ends up in the row once")
     if n == 0:
         raise AnalysisError("R10h: no setter with a clone flag found")
 
@@ -728,6 +766,10 @@ _DOC = "src/odfdo/document.py"
 _XP = "src/odfdo/xmlpart.py"
 _EL = "src/odfdo/element.py"
 SEEDS = [
+    Seed("set_row_cells hands the caller's cells to extend_cells as they are", "fault", _T,
+         "        row.extend_cells([cell.clone for cell in cells])", "        row.extend_cells(cells)", "R10h"),
+    Seed("set_row_cells copies the cells in a loop", "neutral", _T,
+         "        row.extend_cells([cell.clone for cell in cells])", "        copies = []\n        for cell in cells:\n            copies.append(cell.clone)\n        row.extend_cells(copies)"),
     Seed("Document.clone forgets that the generator was chosen", "fault", _DOC,
          "        meta = self.__xmlparts.get(ODF_META)\n        if meta is not None and meta._generator_modified:  # type: ignore\n            # not stored in the bytes of the part: the generator was chosen\n            clone.meta._generator_modified = True\n        return clone",
          "        return clone", "R10j"),
